@@ -10,6 +10,7 @@ C->S: real receiving Memoers (signatures required: AuthMemoer; not required: Mem
       validated in batch by RxGuardTrace.tla: an outcome "raised", an intact gram that is refused, or - when signatures
       are required - a delivered memo that is not exactly the signed one, is rejected.
 """
+import itertools
 import random
 
 from .. import core
@@ -18,14 +19,14 @@ from . import c20
 MEMO = "mémo ☃ " + "0123456789" * 3
 
 
-def grams_for(code, auth, curt):
+def grams_for(code, auth, curt, signer="B"):
     """-> (memo, its three grams as rent by a real sender)"""
     for rep in (1, 2, 3, 4, 6):
         memo = MEMO * rep
-        for size in range(c20.mk(code, auth, curt, size=1).size, 700):
-            tx = c20.mk(code, auth, curt, size=size)
+        for size in range(c20.mk(code, auth, curt, size=1, signer=signer).size, 700):
+            tx = c20.mk(code, auth, curt, size=size, signer=signer)
             try:
-                g = tx.rend(memo, c20.keys()["vid"] if auth else None)
+                g = tx.rend(memo, c20.keys(signer)["vid"] if auth else None)
             except Exception:
                 continue
             if len(g) == 3:
@@ -108,9 +109,12 @@ def run(ctx):
         for v in r.violated:
             ctx.violation("the model violates %s" % v, {"tlc": r.out[-2000:]})
     traces, detail = [], []
-    for (code, auth) in c20.codes():
-        for curt in (False, True):
-            memo, grams = grams_for(code, auth, curt)
+    # signer ids of all three kinds (the id is the key / inception key of a rotated identifier / a digest): see c20.keys
+    combos = [(code, auth, curt, sg) for (code, auth) in c20.codes() for curt in (False, True)
+              for sg in ((("D", "B") if not curt else ("E", "D")) if (auth and ctx.quick) else (c20.SIGNERS if auth else ("B",)))]
+    for (code, auth, curt, signer) in combos:
+        if True:
+            memo, grams = grams_for(code, auth, curt, signer)
             for gi, gram in enumerate(grams):
                 rest = [g for j, g in enumerate(grams) if j != gi]
                 cases = [("intact", "intact", gram)]
@@ -125,17 +129,17 @@ def run(ctx):
                     for order in (("A",) if gi == 0 else ("A", "B")):
                         if order == "B" and cls == "intact":
                             continue      # an intact signed gram ahead of its zeroth gram is the listed finding of C20
-                        rx = c20.mk(code, auth)
+                        rx = c20.mk(code, auth, signer=signer)
                         seq = [data] + rest
                         if gi != 0 and order == "A":
                             rx.echos.append((rest[0], "src"))
                             rx.serviceAllRx()
                             seq = [data] + rest[1:]
                         out, err = feed(rx, seq, memo)
-                        ctx.case((code, curt, gi, name, order))
+                        ctx.case((code, curt, gi, name, order, signer))
                         traces.append([{"cls": cls, "out": out}])
                         detail.append({"code": code, "auth": auth, "curt": curt, "gram": gi if order == "A" else -gi, "mutation": name,
-                                       "datagram": data.hex(), "err": err, "rest": [x.hex() for x in rest], "memo": memo})
+                                       "datagram": data.hex(), "err": err, "rest": [x.hex() for x in rest], "memo": memo, "signer": signer})
     # two legitimate signers: one signs her own memo under the memo id of the other's memo.  Every delivered memo must be a
     # (text, signer) pair that was really signed by that signer, in every interleaving
     import pysodium
@@ -160,11 +164,27 @@ def run(ctx):
             txa.makeMID = lambda mid=mid: mid
             memo_a = ("forged " + memo_v)[:len(memo_v)]
             grams_a = [bytes(g) for g in txa.rend(memo_a, vid2)]
-            pool = [("v", g) for g in grams_v] + [("a", g) for g in grams_a]
-            for _ in range(40 if ctx.quick else 1500):
-                seq = [rng.choice(pool) for _ in range(rng.choice([4, 6, 8]))]
-                if rng.random() < 0.5:
-                    seq = [("v", grams_v[0])] + seq
+            # ... and a validly signed memo of hers, same memo id again, whose bytes are not UTF-8 (it can never be delivered)
+
+            class Raw:
+                def __init__(self, b):
+                    self.b = b
+
+                def encode(self):
+                    return self.b
+            grams_u = [bytes(g) for g in txa.rend(Raw(b"\xff\xfe not text \xc3" + b"\x80" * (len(memo_v.encode()) - 14)), vid2)]
+            grams_a_all, grams_u_all = grams_a, grams_u
+            pool = [("v", g) for g in grams_v] + [("a", g) for g in grams_a] + [("u", g) for g in grams_u]
+            blocks = {"v": [("v", g) for g in grams_v], "a": [("a", g) for g in grams_a], "u": [("u", g) for g in grams_u]}
+            structured = [blocks[x] + blocks[y] for x in "vau" for y in "vau" if x != y] + \
+                         [blocks[x] + blocks[y] + blocks[z] for x, y, z in itertools.permutations("vau")]
+            for k in range((40 if ctx.quick else 1500) + len(structured)):
+                if k < len(structured):
+                    seq = list(structured[k])
+                else:
+                    seq = [rng.choice(pool) for _ in range(rng.choice([4, 6, 8]))]
+                    if rng.random() < 0.5:
+                        seq = [("v", grams_v[0])] + seq
                 rx = c20.mk(code, True)
                 rx._keep = keep2
                 err, pairs = None, []
@@ -184,11 +204,12 @@ def run(ctx):
                 genuine = {(memo_v, c20.keys()["vid"]), (memo_a, vid2)}
                 out = "raised" if err else ("dropped" if not pairs else
                                             ("delivered-original" if all(p in genuine for p in pairs) else "delivered-altered"))
-                ctx.case(("impersonation", code, curt, tuple((w, grams_v.index(g) if w == "v" else grams_a.index(g)) for w, g in seq)))
+                gidx = lambda w, g: {"v": grams_v, "a": grams_a, "u": grams_u}[w].index(g)
+                ctx.case(("impersonation", code, curt, tuple((w, gidx(w, g)) for w, g in seq)))
                 traces.append([{"cls": "altered", "out": out}])
                 detail.append({"code": code, "auth": True, "curt": curt, "gram": None,
                                "mutation": "two signers, same memo id: %s -> delivered %s" % (
-                                   [(w, grams_v.index(g) if w == "v" else grams_a.index(g)) for w, g in seq],
+                                   [(w, gidx(w, g)) for w, g in seq],
                                    [(t[:12], (v or "None")[:6]) for t, v in pairs]),
                                "datagram": "", "err": err, "rest": [], "norerun": True})
     # random datagrams
@@ -232,7 +253,7 @@ def replay_case(ctx, case):
     if d.get("norerun"):
         print("this case is a random interleaving of two signers' grams: rerun the check")
         return ["(rerun the check)"] if False else []
-    rx = c20.mk(d["code"], d["auth"])
+    rx = c20.mk(d["code"], d["auth"], signer=d.get("signer", "B"))
     seq = [bytes.fromhex(d["datagram"])] + [bytes.fromhex(x) for x in d["rest"]]
     if d["gram"] and d["gram"] > 0:
         rx.echos.append((seq[1], "src"))
